@@ -976,6 +976,9 @@ func (c *Ctx) symmetrisationLoop(rel, name string) bool {
 	if fn == nil {
 		return false
 	}
+	if c.ViewMode {
+		fn = c.viewOf(fn)
+	}
 	lc := newLinCtx(c, fn)
 	found := false
 	allInstrs(fn, func(in ssa.Instruction) {
